@@ -1726,7 +1726,9 @@ func (sc *serverConn) writeLoop() {
 }
 
 func (sc *serverConn) handleSettings(st *Settings) {
-	st.CopyTo(&sc.clientS)
+	// Only what the frame mentions changes: a SETTINGS frame that leaves
+	// HEADER_TABLE_SIZE out must not put the encoder back to 4096.
+	st.mergeTo(&sc.clientS)
 	sc.enc.SetMaxTableSize(sc.clientS.HeaderTableSize())
 
 	// The per-stream send windows are adjusted in handleStreams, where the
